@@ -1,5 +1,6 @@
 import Plotink.Proofs.C15Connect
 import Plotink.Proofs.C15Legacy
+import Plotink.Proofs.C15GenTop
 
 /-! # C15 — firmware version gating uses numeric version order and blocks unsupported boards
 
@@ -174,5 +175,142 @@ theorem C15_params :
     parseVersion Params.std.gateReboot = some [2, 5, 5] ∧
     parseVersion Params.std.gateVoltage = some [2, 2, 3] ∧
     parseVersion Params.std.gateServo = some [2, 6, 0] := by decide
+
+
+/-! ## The same properties about the code REGENERATED from the source on every run
+
+`Gen.ebb_serial_min_version`, `Gen.ebb_serial_reboot`, …, `Gen.EBB3_connect` are produced by `translator/pyio2lean.py`
+from `plotink/ebb_serial.py`, `ebb_motion.py`, `ebb3_serial.py`; the version literals below are the ones standing in
+that code (a changed literal, comparison or statement order changes the generated definition and these proofs stop
+checking).  Scripts: faults are serial I/O exceptions, lines are ASCII (`PortOk`); version texts have no leading `v`
+(`NoV`: the runtime's `parse` rejects one).  `fuel ≥ 101` covers the retry loops. -/
+
+open C15Gen PyObj Gen in
+/-- **Both layers, regenerated**: on a board whose version reply carries the release `v`, the regenerated legacy
+`min_version(port, thr)` and the regenerated `EBB3.parse_version(reply)` followed by `EBB3.min_version(thr)` both return
+`vle g v` (the Spec order of `C15_order`) for a threshold text that parses to `g`. -/
+theorem C15_gen_layers (fuel : Nat) (hf : 101 ≤ fuel) (thr : List Char) (g v : List Nat) (hthr : NoV thr)
+    (hg : parseVersion thr = some g) :
+    (∀ (w : World NoObj) (reply : List Char), PortOk w.port → NoVScript (absIo w.port).reads →
+      (lquery genParams (absIo w.port) vQuery).2 = .ok reply → versionOf reply = some v →
+      ∃ p', ebb_serial_min_version fuel .port (.str thr) w = .val (.bool (vle g v)) { w with port := p' }) ∧
+    (∀ (st : St) (p : PyIO.Port) (ext : Ext) (reply t : List Char), versionText reply = some t → NoV t →
+      parseVersion t = some v →
+      ∃ st1, EBB3_parse_version fuel (.str reply) ⟨encSt st, p, ext⟩ = .val .none ⟨encSt st1, p, ext⟩ ∧
+        EBB3_min_version fuel (.str thr) ⟨encSt st1, p, ext⟩ = .val (.bool (vle g v)) ⟨encSt st1, p, ext⟩) :=
+  layers_gen fuel hf thr g v hthr hg
+
+open C15Gen PyObj Gen in
+/-- **Numeric order, regenerated, on all triples**: with the reply's version text `a.b.c` and the threshold text
+`x.y.z` (decimal renderings of arbitrary naturals), the regenerated `EBB3` layer answers "at least" exactly when
+`(x, y, z) ≤ (a, b, c)` lexicographically — and so does the regenerated legacy layer (`C15_gen_layers`). -/
+theorem C15_gen_order (fuel : Nat) (hf : 101 ≤ fuel) (a b c x y z : Nat)
+    (st : St) (p : PyIO.Port) (ext : Ext) (reply : List Char) (hr : versionText reply = some (render [a, b, c])) :
+    ∃ st1 r, EBB3_parse_version fuel (.str reply) ⟨encSt st, p, ext⟩ = .val .none ⟨encSt st1, p, ext⟩ ∧
+      EBB3_min_version fuel (.str (render [x, y, z])) ⟨encSt st1, p, ext⟩ = .val (.bool r) ⟨encSt st1, p, ext⟩ ∧
+      (r = true ↔ x < a ∨ (x = a ∧ (y < b ∨ (y = b ∧ z ≤ c)))) := by
+  obtain ⟨st1, h1, h2⟩ := (layers_gen fuel hf (render [x, y, z]) [x, y, z] [a, b, c] (noV_render _ (by simp))
+    (C15_roundtrip _ (by simp))).2 st p ext reply _ hr (noV_render _ (by simp)) (C15_roundtrip _ (by simp))
+  exact ⟨st1, _, h1, h2, vle_triple x y z a b c⟩
+
+open C15Gen PyObj Gen in
+/-- **The gates, regenerated.**  Each regenerated gated feature, called on a port, ends (value or escaping exception,
+never out of fuel) having attempted the version query `V\r`, or `V\r` and then its own command — the command only
+when the board's version reply (the first non-silent read outcome) parses to at least the gate that stands in the
+regenerated code: 2.5.5 (nickname query / write, reboot), 2.2.3 (voltage), 2.6.0 (servo timeout). -/
+theorem C15_gen_gates (fuel : Nat) (hf : 101 ≤ fuel) (w : World NoObj) (hp : PortOk w.port)
+    (hnov : NoVScript (absIo w.port).reads) :
+    (∀ vb, ∃ p', outPort (ebb_serial_query_nickname fuel .port vb w) = some p' ∧
+      GenGate w.port p' ['2', '.', '5', '.', '5'] ['Q', 'T', '\r']) ∧
+    (∀ nick, PyIO.isAscii nick = true → ∃ p', outPort (ebb_serial_write_nickname fuel .port (.str nick) w) = some p' ∧
+      GenGate w.port p' ['2', '.', '5', '.', '5'] (['S', 'T', ','] ++ nick ++ ['\r'])) ∧
+    (∃ p', outPort (ebb_serial_reboot fuel .port w) = some p' ∧
+      GenGate w.port p' ['2', '.', '5', '.', '5'] ['R', 'B', '\r']) ∧
+    (∀ vb, ∃ p', outPort (ebb_motion_queryVoltage fuel .port vb w) = some p' ∧
+      GenGate w.port p' ['2', '.', '2', '.', '3'] ['Q', 'C', '\r']) ∧
+    (∀ t s vb, ∃ p', outPort (ebb_motion_servo_timeout fuel .port (.int t) (encOptInt s) vb w) = some p' ∧
+      GenGate w.port p' ['2', '.', '6', '.', '0'] (srCmd t s)) :=
+  ⟨fun vb => query_nickname_gen fuel hf vb w hp genParams genParams_ok sameName_V sameName_QT hnov,
+   fun nick hn => write_nickname_gen fuel hf nick hn w hp genParams genParams_ok sameName_V hnov,
+   reboot_gen fuel hf w hp genParams genParams_ok sameName_V hnov,
+   fun vb => queryVoltage_gen fuel hf vb w hp genParams genParams_ok sameName_V sameName_QC hnov,
+   fun t s vb => servo_timeout_gen fuel hf t s vb w hp genParams genParams_ok sameName_V hnov⟩
+
+open C15Gen PyObj Gen in
+/-- non-vacuity of the script hypotheses of the regenerated-code theorems: a prompt 2.6.0 board -/
+example : let p : PyIO.Port := ⟨[.line "EBBv13_and_above EB Firmware Version 2.6.0\r\n".toList, .line "OK\r\n".toList], [], [], 0⟩
+    PortOk p ∧ NoVScript (absIo p).reads := by
+  intro p
+  refine ⟨⟨⟨?_, ?_⟩, by decide⟩, ?_⟩
+  · intro c hc; simp [p] at hc
+  · intro c hc; simp [p] at hc
+  · intro l t hl ht
+    simp only [p, absIo, List.map, absRd, List.mem_cons, Rd.line.injEq, List.not_mem_nil, or_false] at hl
+    rcases hl with rfl | rfl
+    · have : versionText "EBBv13_and_above EB Firmware Version 2.6.0\r\n".toList = some "2.6.0".toList := by decide
+      rw [this] at ht; cases ht; decide
+    · have : versionText "OK\r\n".toList = none := by decide
+      rw [this] at ht; cases ht
+
+open C15Gen PyObj Gen in
+/-- **`connect` returns `True` only for an identified, supported board — regenerated code.**  On a disconnected
+object with no stale version, whatever `_get_port_name` located: if the regenerated `EBB3.connect` returns `True`
+then a reply within the two probes contained `EBB` and its version parsed to at least 3.0.2 (the literal in the
+regenerated code). -/
+theorem C15_gen_connect_true (fuel : Nat) (st : St) (hp : st.port = false) (hvp : st.vparsed = none)
+    (given found caller : Option (List Char)) (p : PyIO.Port) (ext : Ext) (hok : PortOk p)
+    (hloc : EBB3__get_port_name fuel (optStr given) ⟨encSt st, p, ext⟩
+      = .val .none ⟨encSt (locSt st given found), p, ext⟩)
+    (w' : World EBB3_Obj)
+    (hres : EBB3_connect fuel (optStr given) (optStr caller) ⟨encSt st, p, ext⟩ = .val (.bool true) w') :
+    ∃ s v, Identifies (ioOf ext p) s ∧ versionOf s = some v ∧ vle [3, 0, 2] v = true :=
+  connect_true_gen fuel st hp hvp given found caller p ext hok hloc w' hres
+
+open C15Gen PyObj Gen in
+/-- **Every rejection scenario is refused — regenerated code.**  No port located, the port cannot be opened, a serial
+I/O exception during the probes, no `EBB` in either reply, or an EBB older than 3.0.2: the regenerated `connect`
+returns `False`, the object ends in exactly the state of the model's `connect` (an error is recorded, every later
+request is blocked), and at most two `v\r` probes were attempted (none when the port did not open). -/
+theorem C15_gen_connect_false (fuel : Nat) (st : St) (hp : st.port = false)
+    (given found caller : Option (List Char)) (p : PyIO.Port) (ext : Ext) (hok : PortOk p)
+    (hloc : EBB3__get_port_name fuel (optStr given) ⟨encSt st, p, ext⟩
+      = .val .none ⟨encSt (locSt st given found), p, ext⟩)
+    (hrej : found = none ∨ Rejected [3, 0, 2] (ioOf ext p))
+    (hnov : ∀ s t, Identifies (ioOf ext p) s → versionText s = some t → NoV t) :
+    ∃ p' k, EBB3_connect fuel (optStr given) (optStr caller) ⟨encSt st, p, ext⟩
+        = .val (.bool false) ⟨encSt (connect genParams st given found caller (ioOf ext p)).st, p', ext⟩ ∧
+      (connect genParams st given found caller (ioOf ext p)).st.err ≠ none ∧
+      blocked (connect genParams st given found caller (ioOf ext p)).st = true ∧
+      k ≤ 2 ∧ p'.log = p.log ++ List.replicate k vProbe ∧ (found = none ∨ ext.openOk = false → k = 0) :=
+  connect_false_gen fuel st hp given found caller p ext hok hloc hrej hnov
+
+open C15Gen PyObj Gen in
+/-- on a fresh port log, what the regenerated `connect` attempted to write to a refused device is a prefix of
+`["v\r", "v\r"]` -/
+theorem C15_gen_connect_false_prefix (fuel : Nat) (st : St) (hp : st.port = false)
+    (given found caller : Option (List Char)) (p : PyIO.Port) (ext : Ext) (hok : PortOk p) (hlog : p.log = [])
+    (hloc : EBB3__get_port_name fuel (optStr given) ⟨encSt st, p, ext⟩
+      = .val .none ⟨encSt (locSt st given found), p, ext⟩)
+    (hrej : found = none ∨ Rejected [3, 0, 2] (ioOf ext p))
+    (hnov : ∀ s t, Identifies (ioOf ext p) s → versionText s = some t → NoV t) :
+    ∃ w', EBB3_connect fuel (optStr given) (optStr caller) ⟨encSt st, p, ext⟩ = .val (.bool false) w' ∧
+      w'.port.log <+: [vProbe, vProbe] := by
+  obtain ⟨p', k, e, _, _, hk, hl, _⟩ := connect_false_gen fuel st hp given found caller p ext hok hloc hrej hnov
+  refine ⟨_, e, ?_⟩
+  simp only [hl, hlog, List.nil_append]
+  have : k = 0 ∨ k = 1 ∨ k = 2 := by omega
+  rcases this with rfl | rfl | rfl
+  · exact ⟨[vProbe, vProbe], rfl⟩
+  · exact ⟨[vProbe], rfl⟩
+  · exact ⟨[], rfl⟩
+
+open C15Gen PyObj Gen in
+/-- non-vacuity of the location hypothesis: for a given name, `_get_port_name` of the regenerated code does what
+`locSt` says (`find_named(...)` is the input `ext.findNamed`) -/
+theorem C15_gen_located (fuel : Nat) (g : List Char) (found : Option (List Char)) (st : St)
+    (p : PyIO.Port) (ext : Ext) (hext : ext.findNamed = optStr found) :
+    EBB3__get_port_name fuel (optStr (some g)) ⟨encSt st, p, ext⟩
+      = .val .none ⟨encSt (locSt st (some g) found), p, ext⟩ :=
+  get_port_name_named fuel g found st p ext hext
 
 end Plotink
